@@ -32,7 +32,11 @@ type c17Case struct {
 	Steps    []string `json:"steps"` // per session after handshake: poll | bigpoll (compressible, Accept-Encoding) | post | preflight
 	Origins  []string `json:"origins"`
 	JSONP    bool     `json:"jsonp"`
-	Seed     string   `json:"seed"`
+	// End: how each session's history ends: "" | client-close (close packet in a data request) |
+	// server-close-pending-poll | upgrade-pending-poll: responses written while or after the
+	// session leaves its polling transport
+	End  string `json:"end"`
+	Seed string `json:"seed"`
 }
 
 var c17Origins = []string{"", "https://a.example", "https://b.example", "https://evil.example", "https://a.example.evil.test", "null", "https://sub.a.example"}
@@ -54,6 +58,7 @@ func genC17(rng *rand.Rand) c17Case {
 		c.Steps = append(c.Steps, []string{"poll", "poll", "post", "post", "preflight", "bigpoll"}[rng.IntN(6)])
 		c.Origins = append(c.Origins, c17Origins[rng.IntN(len(c17Origins))])
 	}
+	c.End = []string{"", "client-close", "server-close-pending-poll", "upgrade-pending-poll"}[rng.IntN(4)]
 	return c
 }
 
@@ -353,6 +358,49 @@ func runC17(c c17Case, r *rep.Report) (key, msg string, stats map[string]int64) 
 								key, msg = "c17-preflight-passed-on", fmt.Sprintf("OPTIONS passed on to the engine answered %d %q", res.Status, res.Body)
 								return
 							}
+						}
+					}
+				}
+				rig.Wait()
+				switch c.End {
+				case "client-close":
+					// the acknowledgement of this data request is written after the session closed
+					if res := cl.Post(refcodec.Packet{Type: refcodec.Close}); res.Err == nil && res.Status == 200 {
+						responses++
+						stats["responses_written_after_the_session_closed"]++
+					}
+				case "server-close-pending-poll":
+					x := cl.PollStart()
+					time.Sleep(time.Millisecond)
+					rig.Wait()
+					if !x.Done() {
+						w.SocketByID(sid).Close(true)
+						rig.Wait()
+						if res, ok := x.WaitFor(time.Second); ok && res.Status == 200 {
+							responses++
+							stats["responses_written_after_the_session_closed"]++
+						}
+					} else {
+						responses++
+					}
+				case "upgrade-pending-poll":
+					if !c.JSONP {
+						x := cl.PollStart()
+						time.Sleep(time.Millisecond)
+						rig.Wait()
+						cand := w.Candidate(sid, 4)
+						if x.Done() {
+							responses++
+						} else if cand.DialCandidateWS() == nil {
+							time.Sleep(time.Millisecond)
+							cand.WSWriteRaw(false, []byte("2probe"))
+							// the fast-poll noop releases the pending poll within 100 ms
+							if res, ok := x.WaitFor(time.Second); ok && res.Status == 200 {
+								responses++
+								stats["responses_written_during_an_upgrade"]++
+							}
+							cand.WSWriteRaw(false, []byte("5"))
+							time.Sleep(time.Millisecond)
 						}
 					}
 				}
